@@ -41,10 +41,19 @@ class Scenario:
             if old != -1:
                 signal.set_wakeup_fd(old, warn_on_full_buffer=False)
             wake = self.wake_ids.setdefault(old, len(self.wake_ids))
-        nfds = len(os.listdir("/proc/self/fd"))
+        # descriptors open now that were not open when the history began (the listing's own descriptor is gone by
+        # the time fstat looks at it).  Counting *new* descriptors keeps the measure independent of old harness
+        # objects being finalised by the garbage collector in the middle of a history.
+        cur = set()
+        for name in os.listdir("/proc/self/fd"):
+            try:
+                os.fstat(int(name))
+                cur.add(int(name))
+            except OSError:
+                pass
         if self.base_fds is None:
-            self.base_fds = nfds
-        return {"tty": tid, "nb": nb, "sig": sid, "wake": wake, "fds": nfds - self.base_fds}
+            self.base_fds = cur
+        return {"tty": tid, "nb": nb, "sig": sid, "wake": wake, "fds": len(cur - self.base_fds)}
 
     def run(self):
         from curtsies import Input, FullscreenWindow, CursorAwareWindow, Cbreak, Nonblocking, Termmode
@@ -101,7 +110,17 @@ class Scenario:
                         kind, obj = stack[-1]
                         name = st["name"]
                         if name == "render":
-                            obj.render_to_terminal([fmtstr("hi", "red"), "x"], (1, 1))
+                            # terminal is 5 rows: small / exactly full / taller than the screen (scrolls; with the
+                            # cursor on the first line that line leaves the screen) / empty
+                            shape = st.get("shape", "small")
+                            if shape == "small":
+                                obj.render_to_terminal([fmtstr("hi", "red"), "x"], (1, 1))
+                            elif shape == "full" or kind == "Fullscreen":
+                                obj.render_to_terminal([fmtstr("r%d" % k, "blue") for k in range(5)], (4, 1))
+                            elif shape == "tall":
+                                obj.render_to_terminal(["t%d" % k for k in range(8)], (0, 0))
+                            else:
+                                obj.render_to_terminal([], (0, 0))
                         elif name == "request":
                             obj.send(0)
                         elif name == "request_key":
@@ -275,6 +294,10 @@ class C12(TraceCheck):
                             yield [init, E("Fullscreen", hide=hide)] + [OP("render")] * cut + [end]
                             for keep in (0, 1):
                                 yield [init, E("CursorAware", hide=hide, keep=keep)] + [OP("render")] * cut + [end]
+                    for shapes in (("full",), ("tall",), ("empty",), ("small", "tall"), ("tall", "small"), ("tall", "tall")):
+                        for end in (X, R):
+                            yield [init, E("Fullscreen", hide=hide)] + [OP("render", shape=x) for x in shapes] + [end]
+                            yield [init, E("CursorAware", hide=hide, keep=hide)] + [OP("render", shape=x) for x in shapes] + [end]
                 for kind in ("Cbreak", "Nonblocking", "Termmode"):
                     for end in (X, R):
                         yield [init, E(kind), end]
@@ -325,6 +348,11 @@ class C12(TraceCheck):
         hist[0]["sig0"] = choice
         signal.signal(signal.SIGINT, initial)
         signal.set_wakeup_fd(-1)
+        import gc
+        if C12._count == 1:
+            gc.collect()
+            gc.freeze()   # the generated histories etc. are permanent: later collections only look at what is new
+        gc.collect()      # finalise what earlier histories left behind before the descriptor baseline is taken
 
         def go():
             sc = Scenario(hist)
